@@ -21,7 +21,7 @@ pub fn generate(thorough: bool, seed: u64, em: &mut Emitter) {
             // exactly one invalid path, of one kind, at a random position of the list
             let kind = *r.pick(&["unknown_member", "index_out_of_range", "non_numeric_index", "no_leading_slash", "empty_path",
                                  "inside_disclosed", "through_scalar", "member_of_array", "negative_index", "index_overflow", "reserved_name",
-                                 "into_digest_list", "repeat_array_element", "repeat_member", "into_placeholder", "cnf_path_with_key_binding"]);
+                                 "into_digest_list", "repeat_array_element", "repeat_member", "into_placeholder", "cnf_path_with_key_binding", "own_cnf_with_key_binding"]);
             let nodes = gen::all_nodes(&claims);
             let mut paths: Vec<String> = marks.iter().map(gen::render).collect();
             let bad: Option<(String, usize)> = match kind {
@@ -96,6 +96,22 @@ pub fn generate(thorough: bool, seed: u64, em: &mut Emitter) {
                         Some((r.pick(&["/cnf", "/cnf/n", "/cnf/kty"]).to_string(), r.below(paths.len() + 1)))
                     }
                 }
+                "own_cnf_with_key_binding" => {
+                    // the caller's claims carry a cnf member and key binding is required: refused (repair F21)
+                    let mut c = claims.clone();
+                    c.as_object_mut().unwrap().insert("cnf".to_string(), json!({"kty": "caller-supplied"}));
+                    case["claims"] = c;
+                    case["cnf"] = json!(true);
+                    if r.chance(1, 2) {
+                        paths.push("/cnf".to_string());
+                        case["paths"] = json!(paths);
+                    }
+                    case["expect_issue"] = json!("err");
+                    case["tag"] = json!(kind);
+                    case["nontrivial"] = json!(true);
+                    em.case("issue", case);
+                    continue;
+                }
                 "reserved_name" => {
                     // the claims themselves use a reserved name: refused whatever the paths are (repair F19)
                     let mut c = claims.clone();
@@ -125,7 +141,8 @@ pub fn generate(thorough: bool, seed: u64, em: &mut Emitter) {
             if marks.is_empty() {
                 case["path_triples"] = json!([]);
             }
-            let lifetimes = [0i64, 1, 60, 3600, -5, 86_400 * 365];
+            // also lifetimes no date can hold: the request must not panic (the recorded value then saturates)
+            let lifetimes = [0i64, 1, 60, 3600, -5, 86_400 * 365, i64::MAX, i64::MIN, i64::MAX / 1000 + 1, i64::MAX - 1_000_000];
             if r.chance(1, 4) {
                 case["exp_in"] = json!(*r.pick(&lifetimes));
             }
